@@ -290,7 +290,10 @@ func (h *zzC06) ledger() {
 		}
 		vfAssert("history:resident-xor-notified-exactly-once", (resident && n == 0) || (!resident && n == 1))
 		if n == 1 {
-			vfAssert("history:removed-reason-iff-deleted", (last.reason == REMOVED) == f.deleted)
+			// REMOVED only for an entry an API Delete took; a deleted entry whose deadline had passed may
+			// also be reported as expired (both are true reasons), never as evicted without pressure
+			vfAssert("history:removed-reason-only-if-deleted", vfImplies(last.reason == REMOVED, f.deleted))
+			vfAssert("history:deleted-entry-reported-removed-or-expired", vfImplies(f.deleted, last.reason == REMOVED || last.reason == EXPIRED))
 		}
 	}
 	for _, x := range h.notes {
